@@ -8,20 +8,29 @@ package main
 // function returned. Nothing is executed: the values are the evaluator's.
 
 import (
+	"fmt"
 	"go/types"
 	"golang.org/x/tools/go/ssa"
+	"strings"
 )
 
 type lexTok struct {
 	typ int64
 	val string
+	// where the lexer says the token is (0 when not determined) and the byte
+	// offset its text starts at (l.start when it was sent; -1 when not determined)
+	line, col int64
+	off       int
 }
 
 type lexResult struct {
 	toks []lexTok
-	end  int    // l.pos on return
-	from int    // l.start on return (where the pending token begins)
-	next string // name of the state function returned ("" = nil, "?" = undetermined)
+	end  int // l.pos on return
+	from int // l.start on return (where the pending token begins)
+	// the lexer's other scalar fields on return (bookkeeping a refactoring may
+	// have added: cached line numbers, mode flags); threaded from state to state
+	fields map[string]Val
+	next   string // name of the state function returned ("" = nil, "?" = undetermined)
 }
 
 // lexRun evaluates the state function fn on input from byte offset pos;
@@ -34,7 +43,80 @@ func lexRun(p *Prog, fn *ssa.Function, input string, pos int, lastState string) 
 // lexRunFrom is lexRun with a pending token that began at start; further
 // arguments of fn (a token type, say) are given in extra.
 func lexRunFrom(p *Prog, fn *ssa.Function, input string, start, pos int, lastState string, extra ...Val) (res lexResult, ok bool) {
+	return lexRunWith(p, fn, input, start, pos, lastState, nil, extra...)
+}
+
+// lexScalarFields lists the scalar fields of the lexer struct other than the
+// four the harness sets itself.
+func lexScalarFields(p *Prog) []*types.Var {
+	obj := p.Pkgs["sml"].Types.Scope().Lookup("lexer")
+	if obj == nil {
+		return nil
+	}
+	st, ok := obj.Type().Underlying().(*types.Struct)
+	if !ok {
+		return nil
+	}
+	var out []*types.Var
+	for i := 0; i < st.NumFields(); i++ {
+		f := st.Field(i)
+		switch f.Name() {
+		case "input", "pos", "start", "width":
+			continue
+		}
+		if b, ok := f.Type().Underlying().(*types.Basic); ok && b.Info()&(types.IsInteger|types.IsBoolean|types.IsString) != 0 {
+			out = append(out, f)
+		}
+	}
+	return out
+}
+
+// lexInitialFields: what the constructor of the lexer gives those fields
+// (evaluated once per text; the zero value when the constructor does not set a
+// field or cannot be found).
+func lexInitialFields(p *Prog, input string) map[string]Val {
+	out := map[string]Val{}
+	fields := lexScalarFields(p)
+	for _, f := range fields {
+		out[f.Name()] = zeroVal(f.Type())
+	}
+	if len(fields) == 0 {
+		return out
+	}
+	for _, fn := range p.PkgFuncs("sml") {
+		if fn.Signature.Results().Len() != 1 || fn.Signature.Recv() != nil || !strings.HasSuffix(fn.Signature.Results().At(0).Type().String(), "sml.lexer") {
+			continue
+		}
+		in := NewInterp(p)
+		args := defaultArgs(fn)
+		for i, prm := range fn.Params {
+			if isStringType(prm.Type()) {
+				args[i] = strVal(input)
+			}
+		}
+		o := in.Run(fn, args, nil)
+		rets := o.Frame.ReturnVals()
+		if len(rets) != 1 || rets[0][0].K != KPtr {
+			continue
+		}
+		for _, f := range fields {
+			if v := in.Load(rets[0][0].S+"."+f.Name(), f.Type()); v.K == KInt || v.K == KBool || v.K == KStr {
+				out[f.Name()] = v
+			}
+		}
+		break
+	}
+	return out
+}
+
+func lexRunWith(p *Prog, fn *ssa.Function, input string, start, pos int, lastState string, fields map[string]Val, extra ...Val) (res lexResult, ok bool) {
 	in := NewInterp(p)
+	if fields == nil {
+		fields = lexInitialFields(p, input)
+	}
+	for name, v := range fields {
+		in.InitBind["p0."+name] = v
+	}
 	in.InitBind["p0.input"] = strVal(input)
 	in.InitBind["p0.pos"] = int64Val(int64(pos))
 	in.InitBind["p0.start"] = int64Val(int64(start))
@@ -56,7 +138,17 @@ func lexRunFrom(p *Prog, fn *ssa.Function, input string, start, pos int, lastSta
 			ok = false
 			return
 		}
-		res.toks = append(res.toks, lexTok{t.V.I.Int64(), s.V.S})
+		tk := lexTok{typ: t.V.I.Int64(), val: s.V.S, off: -1}
+		if l, ok := v.Agg[".line"]; ok && l.V.K == KInt && !l.Maybe {
+			tk.line = l.V.I.Int64()
+		}
+		if c, ok := v.Agg[".col"]; ok && c.V.K == KInt && !c.Maybe {
+			tk.col = c.V.I.Int64()
+		}
+		if st := in.Load("p0.start", types.Typ[types.Int]); st.K == KInt && st.I.IsInt64() {
+			tk.off = int(st.I.Int64())
+		}
+		res.toks = append(res.toks, tk)
 	}
 	args := defaultArgs(fn)
 	for i, e := range extra {
@@ -86,6 +178,14 @@ func lexRunFrom(p *Prog, fn *ssa.Function, input string, start, pos int, lastSta
 		return res, false
 	}
 	res.end = int(end.I.Int64())
+	res.fields = map[string]Val{}
+	for _, f := range lexScalarFields(p) {
+		if v := in.Load("p0."+f.Name(), f.Type()); v.K == KInt || v.K == KBool || v.K == KStr {
+			res.fields[f.Name()] = v
+		} else {
+			ok = false // a field the next state depends on is not determined
+		}
+	}
 	res.from = res.end
 	if st := in.Load("p0.start", types.Typ[types.Int]); st.K == KInt && st.I.IsInt64() {
 		res.from = int(st.I.Int64())
@@ -100,12 +200,14 @@ func lexRunFrom(p *Prog, fn *ssa.Function, input string, start, pos int, lastSta
 func lexAll(p *Prog, first string, text string, maxStates int) (toks []lexTok, ok bool) {
 	state, last := first, ""
 	start, pos := 0, 0
+	fields := lexInitialFields(p, text)
 	for n := 0; n < maxStates && state != ""; n++ {
 		fn := p.Func("sml", state)
 		if fn == nil {
 			return toks, false
 		}
-		res, ok := lexRunFrom(p, fn, text, start, pos, last)
+		res, ok := lexRunWith(p, fn, text, start, pos, last, fields)
+		fields = res.fields
 		if !ok || res.next == "?" {
 			return toks, false
 		}
@@ -114,4 +216,80 @@ func lexAll(p *Prog, first string, text string, maxStates int) (toks []lexTok, o
 		start, pos = res.from, res.end
 	}
 	return toks, true
+}
+
+// ---------------------------------------------------------------------------
+// parser harness
+
+// parseObs is a factory call observed while a parse function is evaluated on
+// a token queue: the factory and the elements of its variadic argument.
+type parseObs struct {
+	factory string
+	elems   []Val
+}
+
+// parseRun evaluates a method of the SML parser on a concrete token queue
+// (as lexAll yields it; comment tokens are dropped, as peek() drops them),
+// with the per-message state empty: no variable names seen, ellipsis count 0.
+// Scalar fields of the parser other than those start as zero values. It
+// returns the factory calls in call order and the diagnostics reported.
+func parseRun(p *Prog, fn *ssa.Function, toks []lexTok, depth int) (obs []parseObs, diags []string, ok bool) {
+	ttComment, _ := smlConst(p, "tokenTypeComment")
+	in := NewInterp(p)
+	in.Recursion = depth
+	n := 0
+	for _, t := range toks {
+		if t.typ == ttComment {
+			continue
+		}
+		in.PathBind[fmt.Sprintf("tq[%d].typ", n)] = int64Val(t.typ)
+		in.PathBind[fmt.Sprintf("tq[%d].val", n)] = strVal(t.val)
+		in.PathBind[fmt.Sprintf("tq[%d].line", n)] = int64Val(t.line)
+		in.PathBind[fmt.Sprintf("tq[%d].col", n)] = int64Val(t.col)
+		n++
+	}
+	in.InitBind["p0.tokenQueue"] = Val{K: KSlice, S: "tq", Len: n}
+	in.InitBind["p0.ellipsisCount"] = int64Val(0)
+	in.MapKeys["p0.variableNames"] = nil
+	if obj := p.Pkgs["sml"].Types.Scope().Lookup("parser"); obj != nil {
+		if st, isStruct := obj.Type().Underlying().(*types.Struct); isStruct {
+			for i := 0; i < st.NumFields(); i++ {
+				f := st.Field(i)
+				if _, bound := in.InitBind["p0."+f.Name()]; bound {
+					continue
+				}
+				if b, isBasic := f.Type().Underlying().(*types.Basic); isBasic && b.Info()&(types.IsInteger|types.IsBoolean|types.IsString) != 0 && f.Name() != "input" {
+					in.InitBind["p0."+f.Name()] = zeroVal(f.Type())
+				}
+			}
+		}
+	}
+	ok = true
+	in.OnCall = func(call *ssa.Call, callee *ssa.Function, a []Val, fr *frame) {
+		switch {
+		case isFactory(callee) && callee.Pkg != nil && callee.Pkg.Pkg.Name() == "ast":
+			o := parseObs{factory: callee.Name()}
+			if vi := variadicIndex(callee); vi >= 0 && vi < len(a) {
+				if a[vi].K == KSlice && a[vi].Len >= 0 {
+					for i := 0; i < a[vi].Len; i++ {
+						o.elems = append(o.elems, in.Elem(a[vi], i, types.NewInterfaceType(nil, nil)))
+					}
+				} else if a[vi].K != KNil {
+					ok = false
+				}
+			}
+			obs = append(obs, o)
+		case isParserErrorf(callee) || FnName(callee) == "(*sml.parser).warningf":
+			if len(a) > 2 && a[2].K == KStr {
+				diags = append(diags, a[2].S)
+			} else {
+				diags = append(diags, "?")
+			}
+		}
+	}
+	in.Run(fn, defaultArgs(fn), nil)
+	if len(in.Stuck) > 0 {
+		ok = false
+	}
+	return obs, diags, ok
 }
